@@ -11,6 +11,9 @@ OP_OWNER = {
     "eval": ["C07"],
     "new": ["C08"], "select": ["C08"], "drop": ["C08"], "slice": ["C08"], "copy": ["C08"],
     "equals": ["C09"], "rebuild": ["C09"],
+    "tocsv": ["C09", "C13"], "csvroundtrip": ["C13"],
+    "tojson": ["C09", "C14"], "jsonroundtrip": ["C14"],
+    "wfault": ["C15"],
     "wf": ["C10"], "callbacks": ["C10"],
     "sortadv": ["C03"],
     "ryu": ["C16"], "ryudec": ["C16"],
@@ -18,7 +21,7 @@ OP_OWNER = {
     "csvfault": ["C15"], "csvreadfault": ["C15"],
 }
 
-BASE = "filter+sort+slice+select+drop+copy+apply+fapply+rownums+eval+distinct+groupagg+groupframes+equals+rebuild"
+BASE = "filter+sort+slice+select+drop+copy+apply+fapply+rownums+eval+distinct+groupagg+groupframes+equals+rebuild+tocsv+tojson"
 
 
 def mix(*ops, w=3):
@@ -62,8 +65,17 @@ PROPS = {
                            "mirror of float64ToDecimal over the extracted tables"],
             "rule": "cases = (float64 bit pattern, buffer state); each output is checked against the Lean definition of shortest round-trip text (exact big-number arithmetic, QF.Num.isShortestRoundTrip) and against strconv; "
                     "generator: special values, all exponents x boundary mantissas, exact integers, powers of ten +-1ulp, short decimals, subnormals, random bits; distinct by (bits, prefix, spare)"},
+    "C13": {"lean": ["QF.Props.C12"], "extra_ns": ["QF.Props.C12"],
+            "sections": [dict(hist("hist", ["tocsv", "tocsv", "sort", "filter", "apply"], quick=250), cover_ops={"tocsv"})],
+            "rule": "cases = ToCSV of a derived frame with random Header/Columns options; the bytes are parsed with the spec's RFC 4180 scanner and must denote the frame cell by cell "
+                    "(floats: the text must parse back to the identical bits by exact arithmetic), then ReadCSV of those bytes with the types declared must give the expected frame (both EmptyNull settings)"},
+    "C14": {"lean": ["QF.Props.C16"], "extra_ns": ["QF.Props.C16"],
+            "sections": [dict(hist("hist", ["tojson", "tojson", "sort", "filter", "apply"], quick=250), cover_ops={"tojson"})],
+            "rule": "cases = ToJSON of a derived frame; the bytes are parsed with the spec's RFC 8259 parser (validity) and every record must denote its row (ints exactly, floats parsing back to identical bits, "
+                    "NaN/null as null, strings and names decoded with invalid bytes as U+FFFD); ReadJSON of the bytes must reproduce the frame where the property promises it"},
     "C15": {"lean": ["QF.Props.C12"], "extra_ns": ["QF.Props.C12"],
-            "sections": [{"section": "csvraw", "tag": "csvrawfaults", "opt": "faults=1", "quick": 60, "thorough": 600, "cover_ops": {"C"}},
+            "sections": [dict(hist("hist", ["wfault"], quick=60, thorough=400), tag="hist-wfault", cover_ops=None, owns=lambda m: m["op"] == "wfault"),
+                         {"section": "csvraw", "tag": "csvrawfaults", "opt": "faults=1", "quick": 60, "thorough": 600, "cover_ops": {"C"}},
                          {"section": "csvread", "tag": "csvreadfaults", "opt": "faults=1", "quick": 400, "thorough": 4000, "cover_ops": {"CV"}}],
             "rule": "cases = (document, schedule, failing call number); csvraw enumerates EVERY call number of the chosen schedule per document; distinct by transcript line"},
     "C10": {"lean": ["QF.Props.C06"], "extra_ns": ["QF.Props.C06"], "sections": [dict(hist("hist", []), cover_ops=None)]},
@@ -82,6 +94,12 @@ def _lt(text, technique, note=""):
 
 
 LEVEL_TEXT = {
+    "C13": _lt("ToCSV output of the real code is parsed by the spec's RFC 4180 scanner and must denote the frame; reading it back with ReadCSV must give the frame the property describes. The scanner side rests on the C12 theorems (schedule independence, escaped field read back as its content).",
+               "Lean 4 proof (shared with C12) + semantic round-trip correspondence",
+               "The writer (encoding/csv) is not modelled: its output is judged by what it denotes. A theorem scan(render(row)) = row for every quoting choice is an open goal."),
+    "C14": _lt("ToJSON output of the real code is parsed by the spec's RFC 8259 parser (validity) and must denote the frame record by record; ReadJSON must invert it. Number tokens are judged by exact decimal-to-float arithmetic in Lean.",
+               "Lean 4 executable RFC 8259 / exact float semantics as oracle + formatter lemma of C16",
+               "No refinement theorem for AppendQuotedString yet (open goal); encoding/json is trusted for ReadJSON's decoding."),
     "C16": _lt("layoutInt_spec: the integer layout of appendF writes old content ++ digits ++ zeros for every buffer state (any stale spare capacity). Every output of the real formatter on generated floats and buffer states is checked in Lean against the definition of shortest round-trip text (exact natural-number arithmetic: parses back to the identical bits under correct rounding, no shorter decimal does, closest of that length) and against strconv.FormatFloat.",
                "Lean 4 proof (formatter layout) + executable Lean definition of shortest round trip as differential oracle",
                "PARTIAL: the claim for all 2^64 floats rests on Ryu's precision lemma, which is not proved here; the digit-generation core is validated by differential runs only (labelled as tests)."),
